@@ -130,9 +130,14 @@ def oracle(sc, o):
             want, why = EXPECT[last_t[0]], f"{last_t[0]} entered after the plan's end"
             also = {ended}
         elif o["plan_finished"]:
+            # the request was accepted, the plan handled the control exception and completed on its own: the ladder
+            # says 'success'; the request's own status is accepted as well (e.g. re-stored by a later refused abort)
             want, why = "success", f"the plan handled the {last_t[0]} request and completed on its own"
+            also = {EXPECT[last_t[0]]}
         else:
             want, why = EXPECT[last_t[0]], f"terminated through {last_t[0]}"
+        if not foreign and any(y[1] == "throw" and y[2] == "FailedPause" for y in g["yields"]):
+            also = also | {"abort"}      # a pause / suspension hit a non-resumable section: FailedPause was delivered
         for d in stops:
             if d["exit"] != want and d["exit"] not in also:
                 if d["exit"] == "abort" and "abort" in o["refused"] and any(a["a"] == "abort" for a in s4_acts) and last_t and last_t[0] != "aborting":
